@@ -26,7 +26,8 @@
 (* A failing clause is recorded in `err` (step, clause, what was expected) *)
 (* and the trace goes on from the LOGGED state, so that each later call is *)
 (* judged relative to the contents the implementation really had and each *)
-(* property's own clauses get their verdict (at most MaxErrs per trace).   *)
+(* property's own clauses get their verdict (at most MaxPerClause errors   *)
+(* per clause and trace are recorded).                                     *)
 (* Every trace ends with exactly one VERDICT line: verdicts are total.     *)
 (***************************************************************************)
 EXTENDS TinyFlux, Json, IOUtils
@@ -39,7 +40,7 @@ Traces == Input.traces
 tvars == <<tid, l, store, ixValid, ix, err>>
 
 NoErr == <<>>
-MaxErrs == 6
+MaxPerClause == 2       \* errors recorded per clause name and trace
 
 TraceInit ==
   /\ tid \in 1..Len(Traces)
@@ -132,7 +133,33 @@ IOFailing(a, ev) ==
   \cup (IF nochange /\ io.same = 0 THEN {[clause |-> "unchanged", expected |-> 1]} ELSE {})
   \cup (IF io.tmp # 0 THEN {[clause |-> "tmp", expected |-> 0]} ELSE {})
 
+(***************************************************************************)
+(* Fault injection (C13): an event that carries a field `fault` is a call  *)
+(* during which one I/O call was made to fail with an OSError.             *)
+(*   oserr       1 iff the caller saw an OSError                           *)
+(*   scan        contents of the live object's own storage afterwards      *)
+(*               (plain iteration, no index), scan_raised = 1 if it raised *)
+(*   reads       read operations made afterwards on the live object, each  *)
+(*               either raised or must equal the answer over `scan`        *)
+(*   ins_ok      whether one more insert (of point `extra`) succeeded      *)
+(*   final       decoding of the file after close                          *)
+(***************************************************************************)
+HasFault(ev) == "fault" \in DOMAIN ev
+
+FaultFailing(a, ev) ==
+  IF ~ HasFault(ev) \/ ev.fault.injected = 0 THEN {} ELSE
+  LET f  == ev.fault
+      ok == CrashAllowed(a, store)
+      finals == IF f.ins_ok = 1 THEN {Append(s, f.extra) : s \in ok} ELSE ok \cup {Append(s, f.extra) : s \in ok}
+  IN   (IF f.oserr = 0 THEN {[clause |-> "fault_reported", expected |-> 1]} ELSE {})
+  \cup (IF f.scan_raised = 0 /\ f.scan \notin ok THEN {[clause |-> "fault_storage", expected |-> SetToSeq(ok)]} ELSE {})
+  \cup (IF f.scan_raised = 0 /\ f.scan \in ok /\
+           \E i \in 1..Len(f.reads) : f.reads[i].exc = "" /\ f.reads[i].res # Result(f.reads[i].a, f.scan)
+        THEN {[clause |-> "fault_reads", expected |-> [i \in 1..Len(f.reads) |-> Result(f.reads[i].a, f.scan)]]} ELSE {})
+  \cup (IF f.final \notin finals THEN {[clause |-> "fault_file", expected |-> SetToSeq(finals)]} ELSE {})
+
 Failing(a, ev) ==
+  IF HasFault(ev) THEN FaultFailing(a, ev) ELSE
      (IF ~ RaisesOK(a, ev) THEN {[clause |-> "raises", expected |-> Bool01(MustRaise(a, store))]} ELSE {})
   \cup (IF RaisesOK(a, ev) /\ ~ Raised(ev) /\ ev.res # Result(a, store)
         THEN {[clause |-> "result", expected |-> Result(a, store)]} ELSE {})
@@ -146,18 +173,18 @@ Failing(a, ev) ==
 Adoptable(s) == \A i \in 1..Len(s) : s[i].t >= 0
 
 TraceNext ==
-  /\ Len(err) < MaxErrs
   /\ l <= Len(Traces[tid].events)
   /\ (l > 1 => Adoptable(store))
   /\ LET ev == Ev
          a  == ev.a
-         F  == SetToSeq(Failing(a, ev))
+         Seen(c) == Cardinality({i \in 1..Len(err) : err[i].clause = c})
+         F  == SetToSeq({f \in Failing(a, ev) : Seen(f.clause) < MaxPerClause})
      IN /\ err' = err \o [i \in 1..Len(F) |-> [step |-> l, clause |-> F[i].clause, expected |-> F[i].expected]]
         /\ store' = (IF NoStore(ev) THEN ExpStore(a) ELSE ev.store)
         /\ ixValid' = (ev.valid = 1) /\ l' = l + 1
   /\ UNCHANGED <<tid, ix>>
 
-Done == Len(err) >= MaxErrs \/ l > Len(Traces[tid].events) \/ (l > 1 /\ ~ Adoptable(store))
+Done == l > Len(Traces[tid].events) \/ (l > 1 /\ ~ Adoptable(store))
 
 Verdict ==
   Done => PrintT(<<"VERDICT", ToJson([id |-> Traces[tid].id, ok |-> Bool01(err = NoErr), steps |-> l - 1, errs |-> err])>>)
